@@ -824,7 +824,7 @@ func (m *interp) stmt(s *Stmt) sig {
 	panic("interp: unknown statement kind " + s.K)
 }
 
-var modelCommands = map[string]bool{"c0": true, "c1": true, "c2": true, "iffy": true, "settings": true}
+var modelCommands = map[string]bool{"c0": true, "c1": true, "c2": true, "iffy": true, "settings": true, "hold": true}
 
 func showCall(name string, args []mval) string {
 	parts := make([]string, len(args))
